@@ -31,6 +31,7 @@ type dtRun struct {
 	thorough bool
 	inScn    int
 	scnKey   string
+	fixKey   string // one scenario group whatever the kind of event (everyDay)
 }
 
 var le = binary.LittleEndian
@@ -123,6 +124,9 @@ func errText(err error) string {
 }
 
 func (r *dtRun) scn(key string) {
+	if r.fixKey != "" {
+		key = r.fixKey
+	}
 	if key != r.scnKey || r.inScn >= 24 {
 		r.tr.Reset(map[string]interface{}{"driver": "dt", "group": key})
 		r.scnKey, r.inScn = key, 0
@@ -736,6 +740,7 @@ func (r *dtRun) all() {
 
 // everyDay: every day of the years 1..9999 through the calendar helpers and the DATE codec
 func (r *dtRun) everyDay(part, parts int) {
+	r.fixKey = "every-day"
 	i := 0
 	for d := date(1, 1, 1); !d.After(date(9999, 12, 31)); d = d.AddDate(0, 0, 1) {
 		i++
